@@ -4562,6 +4562,10 @@ Case_BaseLdurStur:
         if (!match_signature(o0, o1, inst_flags))
           goto InvalidInstruction;
 
+        // The size comes from the source of a long instruction, so the destination has to be checked against it.
+        if ((inst_flags & InstDB::kInstFlagLong) && !check_wide_operand(o1, o0, inst_flags))
+          goto InvalidInstruction;
+
         // The immediate value must match the element size.
         uint64_t shift = o2.as<Imm>().value_as<uint64_t>();
         uint32_t shift_op = o2.as<Imm>().predicate();
